@@ -1,6 +1,6 @@
 #!/usr/bin/env bash
 # tools/evalws.sh <patch.diff|-> <Cxx> <quick|thorough|--replay file> [repo-rev]
-# Runs one check of the *current committed-or-not* /verif tree against a private copy of /repo (HEAD or <repo-rev>) with
+# Runs one check of /verif (HEAD; EVAL_WORKTREE=1: the working tree) against a private copy of /repo (HEAD or <repo-rev>) with
 # <patch.diff> applied, so that /repo itself is never modified (equivalent to: git -C /repo apply patch; ./check ..;
 # git -C /repo checkout -- .).  The private copy lives in /tmp/evalws (worktrees of /repo and a rsync'ed copy of /verif's
 # harness); it is scratch and can be deleted at any time.
@@ -14,8 +14,13 @@ git -C /repo worktree prune
 if [ ! -d $EVW/repo/.git ] && [ ! -f $EVW/repo/.git ]; then git -C /repo worktree add --detach $EVW/repo HEAD >/dev/null 2>&1 || exit 2; fi
 git -C $EVW/repo checkout -q -- . ; git -C $EVW/repo clean -fdq -e target; git -C $EVW/repo checkout -q --detach "$(git -C /repo rev-parse "$REV")" || exit 2
 mkdir -p $EVW/verif
-# the working tree of /verif as it is now (not only HEAD), without build output
-rsync -a --delete --exclude target --exclude .git --exclude 'replays/found' --exclude evidence /verif/ $EVW/verif/
+# /verif as committed (HEAD), or with EVAL_WORKTREE=1 the working tree as it is now; build output is kept
+if [ -n "${EVAL_WORKTREE:-}" ]; then
+  rsync -a --delete --exclude target --exclude .git --exclude 'replays/found' --exclude evidence /verif/ $EVW/verif/
+else
+  rm -rf $EVW/export; mkdir -p $EVW/export; git -C /verif archive HEAD | tar -x -C $EVW/export
+  rsync -a --delete --exclude target --exclude 'replays/found' --exclude evidence $EVW/export/ $EVW/verif/; rm -rf $EVW/export
+fi
 mkdir -p $EVW/verif/evidence
 sed -i "s|\"/repo|\"$EVW/repo|g" $EVW/verif/harness/Cargo.toml $EVW/verif/harness/fuzz/Cargo.toml
 sed -i "s|cp /repo/Cargo.lock|cp $EVW/repo/Cargo.lock|" $EVW/verif/check
